@@ -54,8 +54,10 @@ class Interpreter:
         :param code: Michelson code
         """
         result = InterpreterResult(stdout=[])
-        stack_backup = deepcopy(self.stack)
-        context_backup = deepcopy(self.context)
+        # one memo for both copies: a stacked big_map follows the copied context (BigMapType.__deepcopy__)
+        memo: dict = {}
+        context_backup = deepcopy(self.context, memo)
+        stack_backup = deepcopy(self.stack, memo)
 
         try:
             code_section = CodeSection.match(michelson_to_micheline(code))
